@@ -1,1 +1,86 @@
-From BWExec Require Import Fault.
+(* C20 — storage driver failures surface as errors: never success, never (nil, nil), never a table from partial data.
+   PARTIAL: bounded time and goroutine exit are observed by the harness watchdog (h_fault: 5 s, NumGoroutine), not proved.
+   Object of the theorems: `fexec` (coq/Exec/Fault.v) = the executors of Exec.v over a driver whose every call
+   consumes the entry the fault schedule holds for that call; tied to bql/planner by the h_fault correspondence.
+   The model follows the tree AFTER repository commits 7876d7e (F12) and 72fbbb8 (F13); the refutations found on the
+   tree before them are kept in coq/Exec/History.v. *)
+From Coq Require Import List NArith ZArith Bool Arith.
+From Coq.Strings Require Import Byte.
+Import ListNotations.
+From BWExec Require Import Base Values Store Driver Exec Fault Spec BaseProofs StoreProofs ExecProofs FaultProofs History.
+
+(* ---- for ALL schedules, stores and statements: a consumed failure entry => the statement returns an error ---- *)
+Theorem C20_error_surfaces :
+  forall bulk (sch : schedule) (st : store) (s : stmt),
+  (exists id, In id (d_log (snd (fexec bulk sch st s))) /\ sch id <> FOk) ->
+  exists e, fst (fexec bulk sch st s) = RErr e.
+Proof. exact fexec_error_surfaces. Qed.
+Print Assumptions C20_error_surfaces.
+
+(* ---- the same, per plan type (instances written out) ---- *)
+Theorem C20_error_surfaces_per_plan :
+  forall bulk sch st,
+  (forall gs ts, consumed_failure sch (d_log (snd (fexec bulk sch st (SInsert gs ts)))) -> is_err (fst (fexec bulk sch st (SInsert gs ts))) = true) /\
+  (forall gs ts, consumed_failure sch (d_log (snd (fexec bulk sch st (SDelete gs ts)))) -> is_err (fst (fexec bulk sch st (SDelete gs ts))) = true) /\
+  (forall gs, consumed_failure sch (d_log (snd (fexec bulk sch st (SCreate gs)))) -> is_err (fst (fexec bulk sch st (SCreate gs))) = true) /\
+  (forall gs, consumed_failure sch (d_log (snd (fexec bulk sch st (SDrop gs)))) -> is_err (fst (fexec bulk sch st (SDrop gs))) = true) /\
+  (forall add tmpl outs ins wb q draw,
+      consumed_failure sch (d_log (snd (fexec bulk sch st (SConstruct add tmpl outs ins wb q draw)))) ->
+      is_err (fst (fexec bulk sch st (SConstruct add tmpl outs ins wb q draw))) = true) /\
+  (forall ins vars wb q, consumed_failure sch (d_log (snd (fexec bulk sch st (SSelect ins vars wb q)))) ->
+      is_err (fst (fexec bulk sch st (SSelect ins vars wb q))) = true) /\
+  (consumed_failure sch (d_log (snd (fexec bulk sch st SShow))) -> is_err (fst (fexec bulk sch st SShow)) = true).
+Proof.
+  intros bulk sch st.
+  assert (X : forall s, consumed_failure sch (d_log (snd (fexec bulk sch st s))) -> is_err (fst (fexec bulk sch st s)) = true).
+  { intros s H. destruct (fexec_error_surfaces bulk sch st s H) as [e E]. rewrite E. reflexivity. }
+  repeat split; intros; apply X; assumption.
+Qed.
+Print Assumptions C20_error_surfaces_per_plan.
+
+(* ---- never (nil, nil) ---- *)
+Theorem C20_never_nilnil : forall bulk sch st s, fst (fexec bulk sch st s) <> RNilNil.
+Proof. exact fexec_never_nilnil. Qed.
+Print Assumptions C20_never_nilnil.
+
+(* ---- a failure met before the write phase (Init, a lookup of the pattern, the query engine) writes nothing;
+   and under any schedule a statement only ever touches the graphs it names as targets ---- *)
+Theorem C20_failure_effects :
+  (forall bulk sch st s e, fst (fexec bulk sch st s) = RErr e -> (e = EInit \/ e = EDriver \/ e = EQuery \/ e = EStatic) ->
+      d_store (snd (fexec bulk sch st s)) = st) /\
+  (forall bulk sch st s g, ~ In g (targets s) -> get (d_store (snd (fexec bulk sch st s))) g = get st g).
+Proof.
+  split; [exact fexec_early_failure_no_write|].
+  intros bulk sch st s g Hg. unfold fexec. destruct (xexec bulk sch (mkD st []) s) as [r d] eqn:E. cbn [snd].
+  apply (xexec_frame _ _ _ _ _ _ E g Hg).
+Qed.
+Print Assumptions C20_failure_effects.
+
+(* ---- the tree before the fixes did not satisfy C20_error_surfaces: replayable witnesses (History.v) ---- *)
+Theorem C20_show_refuted_before_F12 :
+  exists sch st, let rd := x_show_before_F12 sch (mkD st []) in
+                 consumed_failure sch (d_log (snd rd)) /\ fst rd = RNilNil.
+Proof. exact show_before_F12_refuted. Qed.
+Print Assumptions C20_show_refuted_before_F12.
+
+Theorem C20_construct_refuted_before_F13 :
+  exists sch st, let rd := x_construct_before_F13 true 1 sch (mkD st []) witness_tmpl [gB] [gA] witness_q (fun _ => 0%N) in
+                 consumed_failure sch (d_log (snd rd)) /\ fst rd = ROk /\ get (d_store (snd rd)) gB = Some [].
+Proof. exact construct_before_F13_refuted. Qed.
+Print Assumptions C20_construct_refuted_before_F13.
+
+(* ---- non-vacuity: the same two witnesses on the current model give errors; a schedule that fails AddTriples after
+   one triple leaves a partial write AND an error ---- *)
+Definition ex_construct : stmt := SConstruct true witness_tmpl [gB] [gA] [bS; bO] witness_q (fun _ => 0%N).
+Definition ex_st : store := [(gA, [(nA, pP, ONode nB)]); (gB, [])].
+Example C20_nonvacuous :
+  fst (fexec 1 (single (KGraphNames, [], 0) FBefore) [(gA, [])] SShow) = RErr EDriver /\
+  fst (fexec 1 (single (KAdd, gB, 0) FWrite) ex_st ex_construct) = RErr EUpdate /\
+  fst (fexec 1 no_faults ex_st ex_construct) = ROk /\
+  consumed_failure_b (single (KAdd, gB, 0) FWrite) (d_log (snd (fexec 1 (single (KAdd, gB, 0) FWrite) ex_st ex_construct))) = true /\
+  fst (fexec 1 (single (KRead, gA, 0) (FAfter 1)) ex_st ex_construct) = RErr EDriver /\
+  fst (fexec 1 (single (KAdd, gA, 0) (FAfter 1)) ex_st
+        (SInsert [gA] [(nB, pP, ONode nA); (nB, pP2, ONode nA)])) = RErr EUpdate /\
+  length (getd (d_store (snd (fexec 1 (single (KAdd, gA, 0) (FAfter 1)) ex_st
+        (SInsert [gA] [(nB, pP, ONode nA); (nB, pP2, ONode nA)])))) gA) = 2.
+Proof. vm_compute. repeat split; reflexivity. Qed.
